@@ -7,7 +7,8 @@
 From Coq Require Import String Ascii.
 From Sakura.Model Require Import Base Cursor Length Event Writer Song Token LoopMachine LexCore RunCore Tie Compile RunRsv.
 From Sakura.Gen Require Import Consts SysFuncRows Messages VarRows.
-From Sakura.Proofs Require Import WriterP BlockP LayoutP TermP PipelineP.
+From Sakura.Spec Require Import LoopSpec.
+From Sakura.Proofs Require Import WriterP LoopP BlockP LayoutP TermP PipelineP LoopParseP LoopExecP.
 From Coq Require Import Lia.
 Open Scope list_scope.
 Open Scope Z_scope.
@@ -251,3 +252,65 @@ Proof. vm_compute. reflexivity. Qed.
 Example compile_fuel_example_value :
   exists bytes log, compile (zs "l8 o5 c d {ceg}4 Sub{d4 r} 'ce' TR(2) y7,100 v.onTime(0,127,!1) Rhythm{bshb}") = Ok (bytes, log).
 Proof. vm_compute. do 2 eexists. reflexivity. Qed.
+
+(* ------------------------------------------------------------------------------------------ *)
+(* 5. fuel, with loops: the brackets balanced (at every level), the state-free step bound of the parsed program *)
+(*    below the step fuel                                                                       *)
+(* ------------------------------------------------------------------------------------------ *)
+Definition loop_bound (n : Z) : nat := Nat.max 1 (Z.to_nat n).
+Fixpoint fuel_ok_loops (d steps : nat) (toks : list tok) : bool :=
+  match d with
+  | O => false
+  | S d' =>
+      match parse_toks toks with
+      | Some p => (scost loop_bound p <? steps)%nat && forallb (tok_fuel_ok (fuel_ok_loops d' steps)) toks
+      | None => false
+      end
+  end.
+
+Lemma to_ltok_other t' t : to_ltok t' = LOther t -> t' = t.
+Proof. destruct t'; cbn [to_ltok]; intros H; try discriminate H; injection H as <-; reflexivity. Qed.
+
+Theorem exec_f_nf_loops steps : forall d toks s,
+  fuel_ok_loops d steps toks = true -> s_break_flag s = 0 -> nf (exec_f d steps toks (Ok s)).
+Proof.
+  induction d as [|d IH]; intros toks s H B; [discriminate H|].
+  cbn [fuel_ok_loops] in H. destruct (parse_toks toks) as [p|] eqn:E; [|discriminate H].
+  apply andb_prop in H. destruct H as [H1 H2]. apply Nat.ltb_lt in H1.
+  assert (HC : forall r, (LoopSpec.cost tok (res song) (step_tok (exec_f d steps)) halted (count1 count_of) p r <= scost loop_bound p)%nat).
+  { intros r. apply (proj2 (cost_le_scost tok (res song) (step_tok (exec_f d steps)) halted count_of loop_bound (fun n s0 => le_n _))). }
+  rewrite (exec_f_parsed d steps toks p (Ok s) E) by (specialize (HC (Ok s)); lia).
+  pose (Inv := fun r : res song => nf r /\ flag_kept 0 r).
+  assert (Q : Inv (LoopSpec.sem tok (res song) (step_tok (exec_f d steps)) halted (count1 count_of) p (Ok s))).
+  { apply (proj2 (sem_invariant tok (res song) (step_tok (exec_f d steps)) halted (count1 count_of) Inv) p); [|split; [exact I|exact B]].
+    intros t Ht r [Hr Hf]. rewrite (parse_toks_sound toks p E) in Ht. apply in_map_iff in Ht. destruct Ht as (t' & Et & Hin).
+    apply to_ltok_other in Et. subst t'.
+    split; [|apply step_tok_flag_kept; [apply exec_f_keeps_break_flag|exact Hf]].
+    destruct r as [s1| | |]; cbn [step_tok bind]; try exact Hr; try exact I.
+    apply (step_song_nf (exec_f d steps) (fuel_ok_loops d steps) IH t s1); [|exact Hf].
+    rewrite forallb_forall in H2. apply H2, Hin. }
+  exact (proj1 Q).
+Qed.
+Corollary exec_f_loops_no_outoffuel : forall (steps depth : nat) (toks : list tok) (s : song),
+  fuel_ok_loops depth steps toks = true -> s_break_flag s = 0 -> exec_f depth steps toks (Ok s) <> OutOfFuel.
+Proof. intros steps depth toks s H B E. pose proof (exec_f_nf_loops steps depth toks s H B) as Q. rewrite E in Q. exact Q. Qed.
+
+(* the loop-free bound is a special case *)
+Definition compile_fuel_ok_loops (src : list Z) : bool :=
+  forallb nodollar src &&
+  match lex (mkLex 96 [] init_vars rhythm_rows) src 0 with
+  | Ok (toks, _) => fuel_ok_loops (S (length src)) STEPS toks
+  | _ => true
+  end.
+Theorem compile_fuel_loops src : compile_fuel_ok_loops src = true -> compile src <> OutOfFuel.
+Proof.
+  unfold compile_fuel_ok_loops. intros H. apply andb_prop in H. destruct H as [H1 H2].
+  pose proof (compile_outcomes src) as O. destruct (compile src) eqn:C; try discriminate. intros _.
+  unfold run_source in O. pose proof (lex_terminates_initial src 0 H1) as [L _].
+  destruct (lex (mkLex 96 [] init_vars rhythm_rows) src 0) as [[toks ls]| | |]; cbn [bind] in O; try discriminate; [|exact (L eq_refl)].
+  pose proof (exec_f_nf_loops STEPS (S (length src)) toks (song_after_lex ls) H2 eq_refl) as Q. rewrite O in Q. exact Q.
+Qed.
+Example compile_fuel_loops_example :
+  let src := zs "l8 [3 c d [2 e : f] : g] {c [2 d] e}4 Sub{[4 r]} 'ce'" in
+  compile_fuel_ok_loops src = true /\ exists bytes log, compile src = Ok (bytes, log).
+Proof. split; [vm_compute; reflexivity|]. vm_compute. do 2 eexists. reflexivity. Qed.
